@@ -38,6 +38,7 @@ import (
 	"cuelang.org/go/internal/core/adt"
 	"cuelang.org/go/internal/core/compile"
 	cuejson "cuelang.org/go/internal/encoding/json"
+	"cuelang.org/go/internal/simhook"
 	"cuelang.org/go/internal/types"
 )
 
@@ -656,9 +657,11 @@ type namedType struct {
 // astFromGoType converts a Go reflect.Type to an ast.Expr, caching results
 // in the global astTypeCache. Errors are accumulated into errs.
 func astFromGoType(t reflect.Type, allowNullDefault bool, errs *[]errors.Error) ast.Expr {
+	simhook.Yield("convert.astFromGoType")
 	if v, ok := astTypeCache.Load(t); ok {
 		return v.(ast.Expr)
 	}
+	simhook.Yield("convert.astFromGoType:miss")
 
 	b := &typeBuilder{
 		byType:    make(map[reflect.Type]*namedType),
@@ -672,6 +675,7 @@ func astFromGoType(t reflect.Type, allowNullDefault bool, errs *[]errors.Error) 
 	e = b.finalize(e, errs)
 	// Avoid returning different AST nodes for the same type.
 	// TODO use singleflight to avoid duplicating the work?
+	simhook.Yield("convert.astFromGoType:store")
 	e1, _ := astTypeCache.LoadOrStore(t, e)
 	return e1.(ast.Expr)
 }
